@@ -73,6 +73,10 @@ def generate(seed, tier, batch):
     fams = ["Dgate", "Xgate", "Zgate", "Sgate", "Pgate", "Rgate", "Fourier", "LossChannel", "Coherent", "Squeezed", "Vacuum"]
     if backend == "fock":
         fams += ["Kgate", "Vgate"]
+        if r.random() < 0.08:
+            # Ggate (symplectic matrix, displacement): a primitive of the fock compiler that only the TensorFlow backend implements - such a
+            # program can be optimised and compiled here, not run (the session ends at "original not runnable")
+            fams += ["Ggate", "Ggate", "Ggate"]
     else:
         fams += ["Thermal"]
     if backend == "bosonic":
@@ -89,6 +93,8 @@ def generate(seed, tier, batch):
         ops.append({"op": "Dgate", "p": [rnd(r, 0.1, 0.5 * s), rnd(r, 0, 6)], "m": [m]})
     if n > 1:
         ops.append({"op": "BSgate", "p": [rnd(r, 0.2, 1.3), rnd(r, 0, 6)], "m": r.sample(range(n), 2)})
+    for o_ in ops:
+        o_["inp"] = True  # input-state preparation (may be run as an earlier program segment of the session)
     ops.append({"op": "BARRIER"})
     measured = []
     L = r.randint(2, 10 if not big else 16)
@@ -104,6 +110,10 @@ def generate(seed, tier, batch):
             for j in range(run_len):
                 if f == "GraphEmbed":
                     ops.append({"op": "GraphEmbed", "aval": rnd(r, 0.1, 0.6), "m": [m]})
+                    k += 1
+                    continue
+                if f == "Ggate":
+                    ops.append({"op": "Ggate", "useed": r.randrange(1 << 20), "m": [m]})
                     k += 1
                     continue
                 if f in ("GaussianTransform", "Interferometer"):
@@ -141,6 +151,19 @@ def generate(seed, tier, batch):
                         inv["p"] = [inv["p"][0], rnd(r, 0, 6)] + list(inv["p"][2:])
                     ops.append(inv)
                     k += 1
+        elif x < 0.56 and backend != "fock":
+            # almost-inverse pair at a large magnitude: the sum of the first parameters is tiny relative to them, but it is not zero - the pair
+            # is a small gate, not the identity (only linear families: the state stays bounded in between)
+            f = r.choice(["Xgate", "Zgate", "Dgate", "Rgate"])
+            big = rnd(r, 800, 5000)
+            resid = round(big * r.choice([2e-6, 4e-6, 8e-6]), 6)
+            ph = [rnd(r, 0, 6)] if f == "Dgate" else []
+            ops.append({"op": f, "p": [big] + ph, "m": [m]})
+            if r.random() < 0.5:
+                ops.append({"op": f, "p": [-(big - resid)] + ph, "m": [m]})
+            else:
+                ops.append({"op": f, "p": [big - resid] + ph, "m": [m], "dag": True})
+            k += 2
         elif x < 0.68 and n > 1:
             a, b = r.sample(range(n), 2)
             ops.append({"op": r.choice(["BSgate", "CXgate", "CZgate"]), "p": [rnd(r, -0.4 * s, 0.4 * s)] if True else [], "m": [a, b]})
@@ -182,7 +205,9 @@ def generate(seed, tier, batch):
     order = r.choice([["orig", "opt", "copt"], ["opt", "orig", "copt"], ["copt", "opt", "orig"], ["opt", "copt", "orig", "opt"]])
     return {"backend": backend, "n": n, "ops": [o for o in ops if o["op"] != "BARRIER"], "tape": tape, "order": order, "cutoff": 8,
             "reopt": r.random() < 0.4, "segs": [], "how": {}, "foreign_first": r.random() < 0.3, "pure": r.random() < 0.7,
-            "bind0": bind0, "bind": bind1, "prebind": prebind}
+            "bind0": bind0, "bind": bind1, "prebind": prebind,
+            # the optimised program as a LATER segment of a session: its modes are then not in vacuum when it starts
+            "two_segments": backend != "bosonic" and random.Random("c03s:%d" % seed).random() < 0.3}
 
 
 def circ_sig(circ):
@@ -221,7 +246,12 @@ def execute(script, w):
                 fprog.compile(compiler=backend, optimize=True)
             except Exception as ex:  # noqa
                 w.log("foreign_error", exc=type(ex).__name__, msg=str(ex)[:200])
-        prog = build_program({"n": script["n"], "ops": script["ops"]})
+        first = None
+        if script.get("two_segments"):
+            first = build_program({"n": script["n"], "ops": [o_ for o_ in script["ops"] if o_.get("inp")]}, name="input")
+            prog = build_program({"ops": [o_ for o_ in script["ops"] if not o_.get("inp")]}, parent=first, name="body")
+        else:
+            prog = build_program({"n": script["n"], "ops": script["ops"]})
         used = {f_ for o_ in script["ops"] for e_ in o_.get("p", []) for f_ in free_deps(e_)}
         args = {k_: v_ for k_, v_ in (script.get("bind") or {}).items() if k_ in used} or None
         args0 = {k_: v_ for k_, v_ in (script.get("bind0") or {}).items() if k_ in used} or None
@@ -229,11 +259,17 @@ def execute(script, w):
             # history: the program has been used with other values before it is optimised
             w.step("prebind", how=script["prebind"])
             try:
+                own0 = lambda p_: {k_: v_ for k_, v_ in args0.items() if k_ in p_.free_params} or None  # noqa
                 if script["prebind"] == "run":
                     tape.reset()
-                    simenv.engine(backend, opts).run(prog, args=args0)
+                    eng0_ = simenv.engine(backend, opts)
+                    if first is not None:
+                        eng0_.run(first, args=own0(first))
+                    eng0_.run(prog, args=own0(prog))
                 else:
-                    prog.bind_params(args0)
+                    for p0_ in ([first] if first is not None else []) + [prog]:
+                        if own0(p0_):
+                            p0_.bind_params(own0(p0_))
             except Violation:
                 return
             except Exception as ex:  # noqa
@@ -241,6 +277,10 @@ def execute(script, w):
                 w.log("orig_error", exc=type(ex).__name__, msg=str(ex)[:200])
                 return
             w.probes["optimised_after_an_earlier_binding"] += 1
+        def own_args(p_):
+            # run(args=...) refuses names the program does not know: every segment gets the values of its own parameters
+            return {k_: v_ for k_, v_ in (args or {}).items() if k_ in p_.free_params} or None
+
         fp0 = program_fp(prog)
         w.step("optimize")
         try:
@@ -261,7 +301,10 @@ def execute(script, w):
             tape.reset()
             w.step("run", which=which)
             try:
-                res = simenv.engine(backend, opts).run(objs[which], args=args)
+                eng_ = simenv.engine(backend, opts)
+                if first is not None:
+                    eng_.run(first, args=own_args(first))
+                res = eng_.run(objs[which], args=own_args(prog))
             except Violation:
                 w.probes["dropped_impossible_tape_value"] += 1
                 return
@@ -270,6 +313,20 @@ def execute(script, w):
                     w.probes["original_not_runnable"] += 1
                     w.log("orig_error", exc=type(ex).__name__, msg=str(ex)[:200])
                     return
+                if "orig" not in results:
+                    # the copy was scheduled before the original: a program the backend cannot run at all is no finding of the optimiser
+                    try:
+                        tape.reset()
+                        eo_ = simenv.engine(backend, opts)
+                        if first is not None:
+                            eo_.run(first, args=own_args(first))
+                        eo_.run(prog, args=own_args(prog))
+                    except Violation:
+                        return
+                    except Exception as ex2:  # noqa
+                        w.probes["original_not_runnable"] += 1
+                        w.log("orig_error", exc=type(ex2).__name__, msg=str(ex2)[:200])
+                        return
                 w.violation("optimize", "optimised-copy-raises", {"which": which, "exc": type(ex).__name__, "msg": str(ex)[:300]}, feats)
                 return
             cur = (state_obs(res.state), samples_obs(res))
@@ -295,7 +352,10 @@ def execute(script, w):
             try:
                 opt2 = opt.optimize()
                 tape.reset()
-                res2 = simenv.engine(backend, opts).run(opt2, args=args)
+                eng_ = simenv.engine(backend, opts)
+                if first is not None:
+                    eng_.run(first, args=own_args(first))
+                res2 = eng_.run(opt2, args=own_args(prog))
             except Exception as ex:  # noqa
                 w.violation("optimize", "re-optimise-raises", {"exc": type(ex).__name__, "msg": str(ex)[:300]}, feats)
                 return
@@ -327,6 +387,8 @@ def shrink(script):
         yield dict(script, ops=cand)
     if script.get("prebind"):
         yield dict(script, prebind=None)
+    if script.get("two_segments"):
+        yield dict(script, two_segments=False)
     if len(script["order"]) > 2:
         for cand in ddmin_list(script["order"], 2):
             if "orig" in cand:
